@@ -134,7 +134,9 @@ class Session:
         ws = ",".join(("t:" if t else "p:") + b.hex() for t, b in self.wire.writes[nw:])
         out = "res=%s writes=%s auth=%s" % (res, ws, "b1" if self.client.authenticated else "b0")
         if st == "ok":
-            buf = getattr(self.client, "_Client__read_buffer")
+            buf = getattr(self.client, "_Client__read_buffer", None)
+            if buf is None:      # the private buffer is no longer where the model was written against: left over bytes = the wire's only
+                buf = b""
             ec, em = self.client.errcode, self.client.errmsg
             out += " errcode=%s errmsg=%s left=%s" % (hexor(ec or b""), hexor(em or b""), hexor(bytes(buf) + bytes(self.wire.stream)))
         return out
